@@ -39,7 +39,7 @@ def run_tlc(module, cfg=None, env=None, workers=16, timeout=1800, simulate=None,
     """Run TLC on spec/<module>.tla with spec/<cfg>.  Returns a TlcResult (never raises on violations)."""
     tag = tag or module
     scratch = _scratch(tag)
-    cmd = ["java", "-XX:+UseParallelGC"]
+    cmd = ["java", "-XX:+UseParallelGC", "-Djava.io.tmpdir=" + scratch]      # (TLC's own temporary directories go with the scratch)
     if heap:
         cmd.append("-Xmx%s" % heap)
     cmd += ["-DTLA-Library=" + SPEC, "-cp", JAVA_CP, "tlc2.TLC",
